@@ -38,7 +38,8 @@ def run(chk):
     chk.rule("C12.O6", "no nondeterminism source is used", 1)
     chk.attempt("O1", lambda: hash_order(chk, P))
     chk.attempt("O1s", lambda: taint_selftest(chk))
-    chk.rule("C12.O7", "no method writes instance state except setters, construction helpers and write-once cache fills", 10)
+    chk.rule("C12.O7", "instance state written outside setters / construction / write-once caches cannot be observed: results do not "
+                       "depend on the order of earlier evaluations", 10)
     chk.attempt("O7", lambda: instance_state(chk, P))
     chk.attempt("O2", lambda: global_state(chk, P))
     chk.attempt("O3", lambda: mutable_defaults(chk, P))
@@ -627,10 +628,82 @@ def instance_state(chk, P):
                         n += 1
                         ok = fi.is_setter or _construction_only(ci, fi) or _under_is_none(fi.node, node, el.attr) \
                             or _only_called_under_is_none(ci, fi, el.attr) or _cache_fill_only(ci, fi)
-                        chk.ob("C12.O7", "%s.%s stores self.%s only as setter, construction or write-once cache fill" % (ci.name, name, el.attr),
-                               ok, site=fi.site(node), found=ast.unparse(node)[:80] if not ok else None,
-                               expect="no instance state written while evaluating / writing", key="C12.O7|%s.%s|%s" % (ci.name, name, el.attr))
+                        if ok:
+                            chk.ob("C12.O7", "%s.%s stores self.%s as setter, construction or write-once cache fill" % (ci.name, name, el.attr),
+                                   True, site=fi.site(node), key="C12.O7|%s.%s|%s" % (ci.name, name, el.attr))
+                            continue
+                        # state written while the object is being used: harmless if it cannot be observed (a correct look-up
+                        # hint), a violation if results then depend on what was asked before - decided by evaluating one object
+                        # on query sequences in different orders against fresh objects
+                        exp = _order_experiment(P, ci)
+                        if exp is None:
+                            raise AnalysisError("%s.%s writes self.%s while the object is in use and no order-independence experiment "
+                                                "exists for this class" % (ci.name, name, el.attr))
+                        bad = exp()
+                        chk.ob("C12.O7", "%s.%s writes self.%s during use: results are independent of the order of earlier queries"
+                               % (ci.name, name, el.attr), not bad, site=fi.site(node), found="; ".join(bad[:3]) if bad else None,
+                               expect="same value for the same argument whatever was evaluated before",
+                               key="C12.O7|%s.%s|%s|history" % (ci.name, name, el.attr))
     return n
+
+
+def _order_experiment(P, ci):
+    names = set(c.name for c in ci.mro() if hasattr(c, "name")) | set(c.name for c in P.subclasses(ci))
+    if any(n.startswith("Multi_Range_Potential_Form") for n in names):
+        return lambda: _multirange_orders(P)
+    if names & {"TableReaderBase", "DatReader", "TableReader"}:
+        return lambda: _tablereader_orders(P)
+    return None
+
+
+def _multirange_orders(P):
+    """one multi-range object (>0 f0, >=2 f1, >4 f2) evaluated at the same separations in several orders; every answer must equal
+    the answer of a fresh object"""
+    from .c08 import build
+    from .. import formrules as F8
+    ranges = {0: ("f0", ">", 0), 1: ("f1", ">=", 2), 2: ("f2", ">", 4)}
+    qs = [-1, 0, 1, 2, 3, 4, 5]
+    orders = [qs, qs[::-1], [3, 0, 5, 2, -1, 4, 1], [4, 4, 0, 0, 2, 2]]
+    bad = []
+    for meth in ("__call__", "deriv", "deriv2"):
+        fresh = {}
+        for q in qs:
+            J = F8.make_interp(P)
+            J.assumption_fns.append(F8.hasattr_true({"deriv": True, "deriv2": True}))
+            o = build(J, P, ranges, [0, 1, 2])
+            fresh[q] = J.num(J.call(J.getattr(o, meth), [Num(ep.const(q))], {}))
+        for order in orders:
+            J = F8.make_interp(P)
+            J.assumption_fns.append(F8.hasattr_true({"deriv": True, "deriv2": True}))
+            o = build(J, P, ranges, [0, 1, 2])
+            for q in order:
+                v = J.num(J.call(J.getattr(o, meth), [Num(ep.const(q))], {}))
+                if not ep.equal(v, fresh[q])[0]:
+                    bad.append("%s(%s) after %s: %r, fresh object: %r" % (meth, q, order[:order.index(q)], v, fresh[q]))
+    return bad
+
+
+def _tablereader_orders(P):
+    from .c18 import FileModel
+    from ..symeval_ops import PyObjV
+    from .. import formrules as F8
+    reader = P.cls("atsim.potentials", "TableReader")
+    text = "".join("%d @y%d\n" % (2 * i, i) for i in range(4))
+    qs = list(range(-1, 8))
+    fresh = {}
+    for q in qs:
+        J = F8.make_interp(P)
+        o = J.instantiate(reader, [PyObjV(FileModel(text))], {}, None)
+        fresh[q] = J.num(J.call(o, [Num(ep.const(q))], {}))
+    bad = []
+    for order in (qs, qs[::-1], [5, 0, 7, 2, -1, 6, 1, 3, 4], [6, 6, 1, 1]):
+        J = F8.make_interp(P)
+        o = J.instantiate(reader, [PyObjV(FileModel(text))], {}, None)
+        for q in order:
+            v = J.num(J.call(o, [Num(ep.const(q))], {}))
+            if not ep.equal(v, fresh[q])[0]:
+                bad.append("reader(%s) after %s: %r, fresh reader: %r" % (q, order[:order.index(q)], v, fresh[q]))
+    return bad
 
 
 def nondeterminism(chk, P):
